@@ -5,10 +5,10 @@ CONSTANTS
   GenKind = "multiset"
   MaxSide = 2
   Orders = {1, 2}
-  MaxViol = 1
+  MaxViol = 0
   OnlyBalanced = FALSE
   Inactive = TRUE
-  AllowReverse = FALSE
+  AllowReverse = TRUE
   MaxRxns = 1
   KChoices <- KPos
   Decades <- EmptySet
